@@ -4,6 +4,9 @@
 package c04
 
 import (
+	"fmt"
+	"sort"
+	"strconv"
 	"strings"
 
 	"verif/engine"
@@ -37,8 +40,8 @@ func init() {
 
 func enumerate(tier string, emit func(string)) {
 	allFuncs() // snapshot the function tables before any case defines anything
+	enumerateB(tier, emit) // the small part first
 	enumerateA(tier, emit)
-	enumerateB(tier, emit)
 }
 
 func exec(spec string) (res engine.Result) {
@@ -56,6 +59,10 @@ func exec(spec string) (res engine.Result) {
 		} else {
 			res.Outcome = lisp.Show(val)
 		}
+	case strings.HasPrefix(spec, "leak:"): // dev aid
+		f := strings.Split(spec, ":")
+		n, _ := strconv.Atoi(f[2])
+		res.Outcome = leakProbe(f[1], n)
 	case spec == "dump:funcs": // dev aid
 		res.Outcome = dumpFuncs()
 	default:
@@ -65,15 +72,119 @@ func exec(spec string) (res engine.Result) {
 }
 
 var required = []string{
+	"B:in-range", "B:below-min", "B:above-max", "B:in-range-with-keys", "B:in-range-optional-supplied", "B:out-of-range-arity-error",
 	"A:valid-call", "A:too-few", "A:too-many", "A:odd-key-tail", "A:optional-default-used", "A:key-default-used",
 	"A:rest-nonempty", "A:keys-out-of-order", "A:duplicate-key", "A:unknown-key", "A:aux", "A:default-form",
 	"A:keyword-as-positional-value",
 }
 
 func bound(tier string) string {
-	return "TODO"
+	b := boundsFor(tier)
+	nshapes := len(shapes(b))
+	na, nb := 0, 0
+	enumerateA(tier, func(string) { na++ })
+	enumerateB(tier, func(string) { nb++ })
+	return fmt.Sprintf("Part A: all %d lambda-list shapes with 0-%d required x 0-%d &optional (each with/without default) x &rest x 0-%d &key "+
+		"(each with/without default) x &aux; per shape every positional count 0..required+optional+2 followed by (a) every sequence of <= %d key/value "+
+		"pairs over the declared keys and one unknown key (all orders, duplicates), (b) each such sequence of < %d pairs followed by a lone key, "+
+		"(c) every <= 2-pair sequence containing an unknown key named like the first required / first optional / rest / aux parameter, (d) one positional "+
+		"value replaced by a declared keyword; each through %s (%d calls incl. 24 default-form cases). Part B: %d functions of %d packages x every "+
+		"argument count 0..max+2 allowed or forbidden by FuncDoc.Args (%d calls; %d functions never called, %d only called with counts outside their range, "+
+		"%d with a starred parameter name not judged)",
+		nshapes, b.maxReq, b.maxOpt, b.maxKey, b.maxPairs, b.maxPairs, strings.Join(b.vias, ", "), na,
+		len(allFuncs()), countPackages(), nb, len(skipAlways), len(skipInRange), countVague())
 }
 
+func countPackages() int {
+	set := map[string]bool{}
+	for _, fn := range allFuncs() {
+		set[fn.pkg] = true
+	}
+	return len(set)
+}
+
+func countVague() int {
+	n := 0
+	for _, fn := range allFuncs() {
+		if parseDoc(fn.fi.Doc, rmNone).vague {
+			n++
+		}
+	}
+	return n
+}
+
+// selftest (S6): mutated reference models. Part A: the reference binder with one seeded bug, run under
+// the choices slip makes where the statement is silent; it is killed when some enumerated case gives an
+// outcome outside the acceptable set of the real reference. Part B: a mutated reading of the documented
+// lambda list; killed when some enumerated (function, count) is classified differently.
 func selftest(tier string) (killed, total int, notes []string) {
-	return 0, 0, nil
+	b := boundsFor(tier)
+	slipLike := variant{slipRest: true, dupRight: true, unknownError: false}
+	muts := []mutation{mMissingRequiredAccepted, mTooManyAccepted, mOptionalDefaultIgnored, mRestDropsFirst, mKeysByPosition,
+		mKeywordSkipsOptional, mKeyDefaultIgnored, mUnknownKeyClobbersParam}
+	alive := map[mutation]bool{}
+	for _, m := range muts {
+		alive[m] = true
+	}
+	total = len(muts)
+	for _, sh := range shapes(b) {
+		if len(alive) == 0 {
+			break
+		}
+		argVectors(sh, b, func(as string) {
+			if len(alive) == 0 {
+				return
+			}
+			args := parseArgs(as)
+			var exp *expectation
+			for m := range alive {
+				o := bind(sh, args, slipLike, m)
+				if exp == nil {
+					exp = acceptable(sh, args)
+				}
+				if !exp.set[o.String()] {
+					delete(alive, m)
+					killed++
+					notes = append(notes, fmt.Sprintf("A: '%s' distinguished by %s %s: mutant gives %s, allowed: %s",
+						mutationNames[m], sh.lambdaList(), "("+strings.Join(argTexts(args), " ")+")", o.String(), exp.describe()))
+				}
+			}
+		})
+	}
+	for m := range alive {
+		notes = append(notes, "A: NOT distinguished: "+mutationNames[m])
+	}
+	rms := map[rangeMutation]string{
+		rmOptionalIsRequired: "&optional parameters counted as required",
+		rmRestIgnored:        "&rest ignored (finite maximum)",
+		rmMaxOffByOne:        "maximum one too large",
+	}
+	for _, rm := range []rangeMutation{rmOptionalIsRequired, rmRestIgnored, rmMaxOffByOne} {
+		total++
+		found := ""
+		for _, fn := range allFuncs() {
+			real, mut := parseDoc(fn.fi.Doc, rmNone), parseDoc(fn.fi.Doc, rm)
+			if real.vague {
+				continue
+			}
+			in, out := real.counts()
+			for _, n := range append(in, out...) {
+				if real.inRange(n) != mut.inRange(n) {
+					found = fmt.Sprintf("%s:%s n=%d", fn.pkg, fn.name, n)
+					break
+				}
+			}
+			if found != "" {
+				break
+			}
+		}
+		if found != "" {
+			killed++
+			notes = append(notes, "B: '"+rms[rm]+"' distinguished by "+found)
+		} else {
+			notes = append(notes, "B: NOT distinguished: "+rms[rm])
+		}
+	}
+	sort.Strings(notes)
+	return
 }
